@@ -66,7 +66,8 @@ def gen(rng, tier):
     big = tier == "thorough"
     n_inf = rng.choice([0, 0, 1, 2])
     n_init = rng.choice([0, 1, 1, 2, 3])
-    sets = [rng.randint(1, 2) for _ in range(rng.choice([0, 1, 1, 2, 3]))]
+    # an expansion set may be empty (StrategyPack.add_expansion([]) is allowed): labels pass through it
+    sets = [rng.choice([1, 1, 1, 2, 2, 2, 0]) for _ in range(rng.choice([0, 1, 1, 2, 3]))]
     n_labels = rng.randint(1, 10)
     n_ops = rng.randint(3, 200 if big else 80)
     w = {
@@ -89,10 +90,13 @@ def gen(rng, tier):
         # many levels: one fresh label per round, each round consumed level-wise (the level counter
         # has to keep counting however many levels there are)
         n_labels = rng.randint(12, 26)
+        very_many = rng.random() < 0.15
+        if very_many:
+            n_labels = rng.randint(258, 300)  # beyond CPython's small-integer cache as well
         for l in range(n_labels):
             ops.append(["add", l])
-            ops.append([rng.choice(["lvl_all", "lvl_all", "drain"])])
-            if rng.random() < 0.2:
+            ops.append(["lvl_all"] if very_many else [rng.choice(["lvl_all", "lvl_all", "drain"])])
+            if rng.random() < (0.02 if very_many else 0.2):
                 ops.append(["restart"])
         ops.append(["drain"])
         ops.append(["next"])
